@@ -59,6 +59,15 @@ public:
     return *this;
   }
 
+  // Integers are hashed by value (without these overloads an int or an
+  // enumeration value would silently convert to bool).
+  CommandSignature& combine(uint64_t v) {
+    value = llvm::hash_combine(value, v);
+    return *this;
+  }
+  CommandSignature& combine(int v) { return combine(uint64_t(int64_t(v))); }
+  CommandSignature& combine(unsigned v) { return combine(uint64_t(v)); }
+
   template <typename T>
   CommandSignature& combine(const std::vector<T>& list) {
     for (const auto& v: list) {
